@@ -95,6 +95,11 @@ def gen_cases(rng, tier):
                 steps.append("%d:between" % tt); tt += 500
             steps += ["%d:resp2" % tt, "%d:wait" % (tt + 5000)]
             cases.append(["ur%d" % k, "c11", "ua", "uac", "se=1800;refresh=do;between", ",".join(steps), "1"]); k += 1
+    # callee side: requests created in the dialog go to the Contact of the INVITE - a Contact in the ACK (optional, legal) is not a target
+    # refresh (RFC 3261 12.2: only a re-INVITE moves the remote target)
+    for j, ack_extra in enumerate(("", "Contact: <sip:peer@10.9.9.9>\r\n", "Contact: \"Alice (desk)\" <sip:alice-desk@caller.example.org;transport=tcp>;+sip.ice\r\n",
+                                   "Contact: <sip:other@10.9.9.77:5090>\r\nSupported: timer\r\n")):
+        cases.append(["ucal%d" % j, "c11", "ua", "uas", "probe", "0:inv,100:accept,300:ack::%s,5000:wait" % ack_extra.encode().hex(), "1"])
     # several refresh rounds in one session: every round's ACK carries the number of that round's re-INVITE (the peer answers whatever
     # request is the newest every 4 s; an answer to a request already answered only makes the same ACK go out again)
     for se, horizon in ((90, 260000), (40, 130000)):
@@ -158,6 +163,12 @@ def _ua_oracle(case, impl):
     # caller side: the request created inside the new dialog goes to the Contact of the peer's response along the reversed Record-Route
     for m in re.finditer(r"probe:(\w+):uri=([^/]*)/route=(\S*?)/totag=(\S*?)@\d+", impl):
         tag, uri, route, totag = m.groups()
+        if tag == "uas":
+            # callee side: remote target = the Contact of the INVITE, remote tag = its From-tag, no Record-Route in these scenarios
+            if uri != "sip:peer@10.9.9.9" or totag != "ptag" or route != "":
+                return ["a request created in the callee's dialog goes to %r (To-tag %r, Route %r); the remote target is the Contact of the INVITE, "
+                        "sip:peer@10.9.9.9, the remote tag its From-tag" % (uri, totag, route)]
+            continue
         if totag != tag:
             return ["a request created in the caller's dialog with %s carries To-tag %r: the remote tag of a dialog is the To-tag of the response that created it" % (tag, totag)]
         ok = set()
